@@ -32,7 +32,7 @@ Fixpoint nth_raw_fuel (fuel : nat) (n : N) (acc : bytes) : bytes :=
     if n <? 63 then alpha n :: acc
     else nth_raw_fuel f (n / 63 - 1) (alpha (n mod 63) :: acc)
   end.
-Definition nth_raw (n : N) : name := nth_raw_fuel (S (N.size_nat n)) n [].
+Definition nth_raw (n : N) : name := nth_raw_fuel (S (N.to_nat (N.size n))) n [].
 
 Definition keywords : list name :=
   map of_string ["and"; "break"; "do"; "else"; "elseif"; "end"; "false"; "for"; "function"; "if"; "in"; "local";
@@ -196,7 +196,7 @@ Definition generate (s : state) : state * option name :=
   end.
 
 Definition reusable (d : dict) : list name :=
-  flat_map (fun e => if snd (snd e) then [fst (snd e)] else []) d.
+  flat_map (fun e : name * (name * bool) => if snd (snd e) then [fst (snd e)] else []) d.
 
 Definition step (s : state) (o : op) : state * option name :=
   match o with
@@ -236,5 +236,5 @@ Fixpoint trace (s : state) (ops : list op) : list name :=
 Definition live_gen (s : state) : list name := flat_map (fun f => reusable (f_dict f)) (stack s).
 Definition lost_gen (s : state) : list name := flat_map f_lost (stack s).
 Definition kept (d : dict) : list name :=
-  flat_map (fun e => if snd (snd e) then [] else [fst (snd e)]) d.
+  flat_map (fun e : name * (name * bool) => if snd (snd e) then [] else [fst (snd e)]) d.
 Definition live_kept (s : state) : list name := flat_map (fun f => kept (f_dict f)) (stack s).
